@@ -104,7 +104,8 @@ fn perturbed_case(ctx: &Ctx, ch: &mut Ch) -> Outcome {
             return Ok(());
         }
         let mut k = ch.pick(n);
-        let fresh = ["zz_unbound", "ünbound", "iffy"][ch.pick(3)];
+        // (names that begin with the placeholder's `_` are ordinary names too)
+        let fresh = ["zz_unbound", "ünbound", "iffy", "_zz", "__", "_1"][ch.pick(6)];
         let mut t = s.clone();
         assert!(syn::rename_occurrence(&mut t, &mut k, fresh));
         let text = sast::print_plain(&t);
